@@ -91,6 +91,7 @@ func seqPart(w *vc.Writer, r *vc.Rand) {
 	for h := 0; h < n; h++ {
 		rr := r.Fork()
 		srv := &vrefl.Server{V1: true, Alpha: true, FailStep: -1, Policy: []int{0, 1, 2, 3, 4, 7, 1, 7, 8}[rr.Intn(9)]}
+		srv.VaryOrder = rr.Bool() // the same contract, its files listed in another order on every other poll: not a change
 		cur := rr.Intn(8)
 		polls := vc.L{}
 		// configure the FIRST poll before the resolver starts (Build polls at once)
